@@ -45,9 +45,13 @@ class Sphinx:
         if k == "blank":
             return {"text": ("", "", "   ")[v % 3]}
         if k == "text":
-            return {"text": [f"alpha d{i} beta", f"see: d{i}", f"Ünï d{i} — x", f"d{i}"][v % 4]}
+            if ln["sh"] == "colon":
+                return {"text": [f"see: d{i}", f"a: b: d{i}", f"http://d{i}"][v % 3]}
+            return {"text": [f"alpha d{i} beta", f"Ünï d{i} — x", f"d{i}"][v % 3]}
         if k == "cont":
-            return {"text": [f"    more d{i}", f"  :param y: fake d{i}", f"        deep d{i} :"][v % 3]}
+            if ln["sh"] == "colon":
+                return {"text": [f"  :param y: fake d{i}", f"        deep d{i} :", f"    see: d{i}"][v % 3]}
+            return {"text": [f"    more d{i}", f"  d{i}", f"        deep d{i}"][v % 3]}
         if k == "other":
             return {"text": [f":foo: d{i}", f":meta d{i}", f":: d{i}"][v % 3]}
         fk, sh, nm = ln["fk"], ln["sh"], ln["nm"]
@@ -92,7 +96,7 @@ class Sphinx:
         if fk is None:
             if line.startswith(":"):
                 return {"k": "other", **none}
-            return {"k": "cont" if line.startswith(" ") else "text", **none}
+            return {"k": "cont" if line.startswith(" ") else "text", "fk": "-", "sh": "colon" if ":" in line else "-", "nm": "-"}
         try:
             _, directive, _value = line.split(":", 2)
         except ValueError:
@@ -109,7 +113,7 @@ class Sphinx:
 
     def long_alphabet(self) -> list:
         none = {"fk": "-", "sh": "-", "nm": "-"}
-        out = [{"k": k, **none} for k in ("blank", "text", "cont", "other")]
+        out = [{"k": k, **none} for k in ("blank", "text", "cont", "other")] + [{"k": k, "fk": "-", "sh": "colon", "nm": "-"} for k in ("text", "cont")]
         for fk in self.fields:
             out.append({"k": "field", "fk": fk, "sh": "bare", "nm": "-"})
             out.append({"k": "field", "fk": fk, "sh": "empty", "nm": "-"})
@@ -180,15 +184,18 @@ class Sphinx:
                 items = []
                 for el in s["items"]:
                     p = parts[el["first"]]
-                    desc = squash(" ".join([p["value"] or ""] + [parts[i]["text"].strip() for i in el["body"]]))
+                    # the value of the consolidated line (what follows its second colon)
+                    whole = " ".join([p["text"].lstrip()] + [parts[i]["text"].lstrip() for i in el["body"]])
+                    desc = squash(whole.split(":", 2)[2]) if whole.count(":") >= 2 else ""
                     tfv = None
                     if el["tf"] >= 0:     # the type field consolidates its own continuation lines too
                         k = el["tf"] + 1
                         extra = []
                         while k < len(parts) and not parts[k]["text"].startswith(":"):
-                            extra.append(parts[k]["text"].strip())
+                            extra.append(parts[k]["text"].lstrip())
                             k += 1
-                        tfv = squash(" ".join([parts[el["tf"]]["value"] or ""] + extra))
+                        whole = " ".join([parts[el["tf"]]["text"].lstrip()] + extra)
+                        tfv = squash(whole.split(":", 2)[2]) if whole.count(":") >= 2 else ""
                     items.append({"desc": desc, "name": el["name"], "ann": el["ann"], "tf": tfv, "dflt": el["dflt"], "first": p})
                 rec["items"] = items
             out.append(rec)
